@@ -19,3 +19,7 @@ def run(prog, rep, tier):
     via_table = [k for k in seen if k in table]
     rep.ob('PANIC18', not via_table, 'PANIC18|curve25519-parser|all-sites-discharged-structurally', 'all %d sites discharged by length facts / fixed sizes' % len(seen) if not via_table else
            'parser sites rely on table entries: %s' % via_table, '-')
+
+
+def thorough_extra(rep, verif, repo):
+    return c08.clippy_superset(rep, verif, repo, 'PANIC18.x', ['curve25519-parser'])
